@@ -48,6 +48,8 @@ fn main() {
 		"cert-random" => certdrv::run_random(&args[2], args[3].parse().unwrap()),
 		"csr-cases" => csrdrv::run_csr_cases(&args[2], &args[3]),
 		"crl-cases" => csrdrv::run_crl_cases(&args[2], &args[3]),
+		"csr-random" => csrdrv::run_csr_random(&args[2], args[3].parse().unwrap()),
+		"crl-random" => csrdrv::run_crl_random(&args[2], args[3].parse().unwrap()),
 		"strings" => strdrv::run(&args[2], &args[3]),
 		"keys" => keydrv::run_keys(&args[2], &args[3]),
 		"pem" => keydrv::run_pem(&args[2], &args[3]),
